@@ -9,6 +9,9 @@ import (
 	"fmt"
 	"math/rand"
 	"strings"
+
+	"github.com/prometheus/prometheus/model/labels"
+	promParser "github.com/prometheus/prometheus/promql/parser"
 )
 
 var (
@@ -398,6 +401,78 @@ func (g *pqGen) db(total bool, size int) *pqDB {
 	return db
 }
 
+// witnessDB: a database DIRECTED by the expression: one series per selector of the expression, satisfying its matchers,
+// every other label at the same default value (so that series of different selectors join on every label and
+// `scalar(a or b)` sees one series); sample values descend (variant 0) or ascend (variant 1) in selector order so that
+// value comparisons between operands go both ways.  Total iff no matcher forces a label to be absent.
+func witnessDB(root promParser.Node, variant int) *pqDB {
+	db := &pqDB{Total: true}
+	sels := []*promParser.VectorSelector{}
+	for _, n := range pqNodes(root) {
+		if vs, ok := n.(*promParser.VectorSelector); ok {
+			sels = append(sels, vs)
+		}
+	}
+	// default value of a label: the first non-empty value an equality matcher of the expression asks for
+	def := map[string]string{}
+	for _, vs := range sels {
+		for _, m := range vs.LabelMatchers {
+			if m.Type == labels.MatchEqual && m.Value != "" && def[m.Name] == "" {
+				def[m.Name] = m.Value
+			}
+		}
+	}
+	seen := map[string]bool{}
+	for i, vs := range sels {
+		ls := map[string]string{}
+		for _, l := range pqLabels {
+			ls[l] = "1"
+			if def[l] != "" {
+				ls[l] = def[l]
+			}
+		}
+		ok := true
+		for _, m := range vs.LabelMatchers {
+			found := false
+			for _, cand := range []string{ls[m.Name], "1", "2", "foo", "bar", "baz", ""} {
+				if cand == "" && m.Name != "__name__" && ls[m.Name] != "" && m.Matches(ls[m.Name]) {
+					found = true
+					break
+				}
+				if m.Matches(cand) {
+					if cand == "" {
+						delete(ls, m.Name)
+					} else {
+						ls[m.Name] = cand
+					}
+					found = true
+					break
+				}
+			}
+			ok = ok && found
+		}
+		if !ok || ls["__name__"] == "" {
+			continue
+		}
+		for _, l := range pqLabels {
+			if _, has := ls[l]; !has {
+				db.Total = false
+			}
+		}
+		k := lsetKey(ls)
+		if seen[k] {
+			continue
+		}
+		seen[k] = true
+		v := float64(len(sels) - i)
+		if variant == 1 {
+			v = float64(i + 1)
+		}
+		db.Series = append(db.Series, pqSeries{Labels: ls, Value: v})
+	}
+	return db
+}
+
 // ---------------------------------------------------------------------------------------------
 // systematic strata: small exhaustive grids around the anchored mechanisms (boundaries of calculateStaticReturn,
 // on()-set-operator verdicts, canJoin over every combination of label-removing / label-guaranteeing operands).
@@ -505,7 +580,7 @@ func pqSystematicAlways() []string {
 	}
 	// S6: twice-shaped operands as the driving side of joins (canJoin reads Included/Guaranteed/Excluded/Fixed)
 	twice := []string{}
-	for _, o := range []string{"sum by(b) (%s)", "sum without(c) (%s)", "abs(%s)"} {
+	for _, o := range []string{"sum by(b) (%s)", "sum without(c) (%s)", "abs(%s)", "sum without(a, d, job) (%s)"} {
 		for _, in := range []string{`foo{a="1"}`, `sum by(a, b) (foo{a="1"})`, `sum without(a) (foo{a="1", b="2"})`, `(foo{a="1", b="2", c="1"} > scalar(bar or baz))`,
 			`(foo{a="1"} * on(a, b) baz)`} {
 			twice = append(twice, fmt.Sprintf(o, in))
